@@ -122,6 +122,7 @@ type fakeClientStream struct {
 	closeSend int
 	sendMsgs  int
 	afterEnd  int // Recv calls after the stream reported its end
+	trlEarly  int // Trailer() calls before Recv reported the end of the stream
 }
 
 func (f *fakeClientStream) Header() (metadata.MD, error) {
@@ -131,6 +132,12 @@ func (f *fakeClientStream) Header() (metadata.MD, error) {
 	return f.s.Hdr, nil
 }
 func (f *fakeClientStream) Trailer() metadata.MD {
+	// grpc.ClientStream: the trailer "must only be called after ... stream.Recv has returned a non-nil
+	// error (including io.EOF)"; before that a real stream has no trailer to give
+	if f.recvs <= len(f.s.Msgs) {
+		f.trlEarly++
+		return nil
+	}
 	if !f.s.HasTrl {
 		return nil
 	}
